@@ -1,8 +1,8 @@
 package rules
 
 import (
-	"go/token"
 	"fmt"
+	"go/token"
 	"go/types"
 	"strings"
 
@@ -290,7 +290,6 @@ func c12R4(c *Ctx, rule string) {
 	}
 }
 
-
 // c12R6: a successful AppendEntries ends the failure back-off: the failure
 // counter that drives the wait at the top of replicateTo is cleared before the
 // next batch is prepared, so catch-up proceeds at RPC speed and not at one
@@ -337,7 +336,6 @@ func c12R6(c *Ctx, rule string) {
 		c.Check(rule, "replicateTo:backoff-bounded", c.P.InstrPos(s.Instr), "the wait is backoff(base, s.failures, constant limit)", ok, "backoff("+c.P.Arg(s.Instr, 0)+", "+c.P.Arg(s.Instr, 1)+", "+c.P.Arg(s.Instr, 2)+")", 1)
 	}
 }
-
 
 // c12R7: two structural conditions of "a reachable follower is caught up".
 // (a) startStopReplication re-points an existing replication routine when the
